@@ -11,11 +11,13 @@ CONSTANTS
   Extra = {"zz", "logger"}
   FullOptParams = 1
   FullOptKw = 1
+  KindParams = 2
 INVARIANT TypeOK
 INVARIANT BindAgree
 INVARIANT Conservation
 INVARIANT Rejection
 INVARIANT DeviationScope
+INVARIANT KindsOK
 INVARIANT LoggedOK
 INVARIANT Shape
 INVARIANT Emit
